@@ -189,8 +189,8 @@ Print Assumptions C11_tree_parser_ne_wildcard_refuted.
 Theorem C11_typed_child_tail_refuted :
   exists t, g_wf [] t && guard_any [] t && guard_write [] t = true /\
             holder_written reg_w cfg_mixed full_oracle t = Some (canon [] t) /\
-            wild_parse reg_w cfg_list (pump full_oracle [] [] t) = Err ETypeError /\
-            wild_parse reg_w cfg_single (pump full_oracle [] [] t) = Err ETypeError.
+            holder_written reg_w cfg_list full_oracle t <> Some (canon [] t) /\
+            holder_written reg_w cfg_single full_oracle t <> Some (canon [] t).
 Proof. exact typed_child_tail_refuted. Qed.
 Print Assumptions C11_typed_child_tail_refuted.
 
@@ -202,7 +202,8 @@ Proof. exact single_holder_tail_refuted. Qed.
 Print Assumptions C11_single_holder_tail_refuted.
 
 Example C11_nested_holders_computed :
-  holder_written reg_w cfg_mixed full_oracle w_nested_ok = Some (canon [] w_nested_ok).
+  holder_written reg_w cfg_mixed full_oracle w_nested_ok = Some (norm_ws (canon [] w_nested_ok)) /\
+  holder_roundtrip reg_w cfg_mixed full_oracle w_nested_ok = Some (norm_ws (canon [] w_nested_ok)).
 Proof. exact nested_holders_computed. Qed.
 Print Assumptions C11_nested_holders_computed.
 
